@@ -36,6 +36,11 @@ def load_all():
     for m in mods:
         mod = importlib.import_module("contracts." + m)
         mod.load(reg)
+    try:
+        from contracts import deps as _deps
+        _deps.axiom_sanity(reg)
+    except Exception as e:       # pragma: no cover
+        print("CHECKER-ERROR axiom sanity setup: %s" % e)
     _cache["table"], _cache["reg"] = table, reg
     return table, reg
 
